@@ -152,3 +152,24 @@ class Sched:
 
     def used(self):
         return self.pos
+
+
+class _Null:
+    def __enter__(self):
+        return self
+
+    def __exit__(self, *a):
+        return False
+
+
+def notrace():
+    """Suspend CrossHair's opcode tracing for harness code that only handles concrete values.
+
+    Outside CrossHair (concrete replay) this is a no-op."""
+    try:
+        from crosshair.tracers import NoTracing, is_tracing
+        if is_tracing():
+            return NoTracing()
+    except Exception:
+        pass
+    return _Null()
